@@ -302,6 +302,9 @@ class Ref:
         elif k == 'raise_if_has':
             if is_map and pt.has(node, op[1]):
                 raise Reject('seasoning', 'attribute %s not allowed' % op[1])
+        elif k == 'raise_bare_if_has':
+            if is_map and pt.has(node, op[1]):
+                raise Reject('seasoning', 'attribute %s not allowed' % op[1])
         elif k == 'get_missing':
             if is_map and pt.keys(node).count(op[1]) != 1:
                 raise Reject('seasoning', 'get_attribute(%s)' % op[1])
